@@ -492,3 +492,116 @@ class cleanup:
         yield "dependants-of-other-widgets-kept", mk_bool(z3.ForAll([x], z3.And(z3.Implies(dm2.has(x), dm.has(x)), z3.Implies(x != e0[0], dm2.has(x) == dm.has(x)))))
         yield "dependants-kept-while-an-entry-remains", mk_bool(z3.ForAll(list(k[1:]), z3.Implies(wm2.cached(e0[0], *k[1:]), dm2.has(e0[0]) == dm.has(e0[0]))))
         yield "counts-the-cleanup", s.cleanups == old.cleanups + 1
+
+
+# ============================================================================================= store
+def effective_depends(st, canvas):
+    """What store takes as the dependency list of `canvas`: the explicit `depends_on` if the attribute exists, else
+    walk_depends(canvas) if the canvas has `children`, else None. Returns (is_none: z3 Bool, list value)."""
+    has_dep, has_children = V._zb(has_attr(canvas, "depends_on")), V._zb(has_attr(canvas, "children"))
+    dep, walked = depends_on_of(st, canvas), walked_of(st, canvas)
+    n = z3.If(has_dep, V._z(dep.length), V._z(walked.length))
+
+    def at(j):
+        jj = mk_int(j) if isinstance(j, z3.ExprRef) else j
+        return z3.If(has_dep, dep.get(jj).e, walked.get(jj).e)
+
+    return z3.And(z3.Not(has_dep), z3.Not(has_children)), n, at
+
+
+@contract(CV + "CanvasCache.store.<walk_depends>", property="C06", replayable=False, assumed=True,
+          notes="walk_depends (nested closure of store, recursive over the opaque canvas tree `canv.children`) is NOT verified: at its call site its result is "
+                "the uninterpreted list walked(canvas); store's contract is stated relative to that list. Trusted: it terminates (canvas trees are finite) and "
+                "has no side effect on the cache. What it should return (the widgets of the nearest descendants that carry widget_info) is covered by the "
+                "bounded cached-equals-fresh check only.")
+class walk_depends:
+    params = dict(canv=CANV)
+    result = ListOf(WIDGET, tuple_=True)
+
+    def pure_spec(a):
+        return walked_of(cur(), a.canv)
+
+
+def _store_loop0(v):
+    """first loop: every dependency seen so far is itself cached"""
+    wm = v.cls._widgets
+    yield "deps-so-far-are-cached", forall(0, v.i_, lambda j: mk_bool(wm.hasw(v.iter_.get(j).e)))
+    yield "nothing-written-yet", same_model(v.cls._widgets, v.old.self._widgets) and same_model(v.cls._deps, v.old.self._deps) and same_model(v.cls._refs, v.old.self._refs)
+
+
+def _edges_grow_only_towards(new, old, widget):
+    x, y = z3.Const("qe_x", W), z3.Const("qe_y", W)
+    return mk_bool(z3.ForAll([x, y], z3.And(z3.Implies(old.edge(x, y), new.edge(x, y)), z3.Implies(z3.And(new.edge(x, y), z3.Not(old.edge(x, y))), y == widget))))
+
+
+def _store_loop1(v):
+    """second loop: `widget` is registered under every dependency seen so far; edges only grow, and only towards widget"""
+    dm, dm0 = v.cls._deps, v.old.self._deps
+    yield "registered-under-deps-so-far", forall(0, v.i_, lambda j: mk_bool(dm.edge(v.iter_.get(j).e, v.widget.e)))
+    yield "edges-only-added-towards-widget", _edges_grow_only_towards(dm, dm0, v.widget.e)
+    yield "entries-and-refs-not-yet-written", same_model(v.cls._widgets, v.old.self._widgets) and same_model(v.cls._refs, v.old.self._refs)
+
+
+@contract(CV + "CanvasCache.store", property="C06", replayable=False)
+class store:
+    """store(wcls, canvas): EITHER the canvas is entered under (widget, wcls, size, focus) AND `widget` is registered as a
+    dependant of EVERY widget of the canvas's dependency list, OR (not cacheable, or some dependency is not itself
+    cached: the early return) nothing at all is written — so no cached parent lacks a dependency edge."""
+    self_shape = CACHE
+    params = dict(wcls=WCLS, canvas=CANV)
+    modifies = ("_widgets", "_refs", "_deps")
+    raises = (TypeError,)
+    call_real = staticmethod(_real)
+    loops = {
+        0: Loop(invariant=_store_loop0),
+        1: Loop(invariant=_store_loop1, modifies=("cls._deps",), shapes={"cls._deps": CACHE.fields["_deps"]}),
+    }
+
+    def requires(s, a):
+        # call site (the render wrappers): the canvas was finalized just now, so its weak reference is not in the cache yet
+        w, c, z, f = _qvars("fr")
+        r = ref_of(a.canvas.e)
+        return both(rep_inv(s), mk_bool(z3.ForAll([w, c, z, f], z3.Implies(s._widgets.cached(w, c, z, f), s._widgets.val2(w, c, z, f) != r))))
+
+    def on_raise(a_old, s, a, exc):
+        st = cur()
+        yield "only-for-a-canvas-without-widget-info", both(a.canvas and True, is_none(widget_info_of(st, a.canvas)))
+        yield "nothing-written", same_model(s._widgets, a_old._widgets) and same_model(s._deps, a_old._deps) and same_model(s._refs, a_old._refs)
+
+    def ensures(old, s, a, result):
+        st = cur()
+        cacheable = PROTOCOLS["CCanvas"].uf_value(st, ".cacheable", a.canvas, [], Bool, 0)
+        wi = widget_info_of(st, a.canvas)
+        none_dep, n, at = effective_depends(st, a.canvas)
+        wm, wm2, dm, dm2, rm, rm2 = old._widgets, s._widgets, old._deps, s._deps, old._refs, s._refs
+        j = z3.Int("qs_j")
+        all_cached = z3.Or(none_dep, z3.ForAll([j], z3.Implies(z3.And(0 <= j, j < n), wm.hasw(at(j)))))
+        if is_none(wi):
+            yield "without-widget-info-only-uncacheable-returns", neg(cacheable)
+            yield "nothing-written", same_model(wm2, wm) and same_model(dm2, dm) and same_model(rm2, rm)
+            return
+        widget, size, focus = val(wi)
+        key = [widget.e, a.wcls.e, size.e, zb(focus)]
+        r = ref_of(a.canvas.e)
+        stored = both(cacheable, mk_bool(all_cached))
+        unchanged = same_model(wm2, wm) and same_model(dm2, dm) and same_model(rm2, rm)
+        # --- the either/or of the statement
+        yield "stored-iff-cacheable-and-every-dependency-cached", eq(mk_bool(wm2.cached(*key)) if not unchanged else mk_bool(wm.cached(*key)), either(stored, mk_bool(wm.cached(*key))))
+        yield "not-stored-writes-nothing", implies(neg(stored), unchanged)
+        if unchanged:
+            yield "unchanged-only-when-not-stored", neg(stored)
+            return
+        yield "entry-holds-this-canvas", both(mk_bool(wm2.cached(*key)), mk_bool(wm2.val2(*key) == r), mk_bool(deref(r) == a.canvas.e))
+        yield "other-entries-untouched", _other_entries_same(wm2, wm, key)
+        yield "reverse-map-names-the-entry", both(mk_bool(rm2.has(r)), mk_bool(z3.And(*[p == q for p, q in zip(rm2.val(r), key)])))
+        q = z3.Const("qs_r", R)
+        yield "other-refs-untouched", mk_bool(z3.ForAll([q], z3.Implies(q != r, z3.And(rm2.has(q) == rm.has(q), *[p == o for p, o in zip(rm2.val(q), rm.val(q))]))))
+        yield "registered-under-every-dependency", mk_bool(z3.Or(none_dep, z3.ForAll([j], z3.Implies(z3.And(0 <= j, j < n), dm2.edge(at(j), widget.e)))))
+        yield "edges-only-added-towards-widget", _edges_grow_only_towards(dm2, dm, widget.e)
+        yield "representation-invariant-kept", rep_inv(s)
+
+
+def _other_entries_same(new, old, key):
+    w, c, z, f = _qvars("oe")
+    here = z3.And(w == key[0], c == key[1], z == key[2], f == key[3])
+    return mk_bool(z3.ForAll([w, c, z, f], z3.Implies(z3.Not(here), z3.And(new.cached(w, c, z, f) == old.cached(w, c, z, f), z3.Implies(old.cached(w, c, z, f), new.val2(w, c, z, f) == old.val2(w, c, z, f))))))
